@@ -1,5 +1,9 @@
-"""Deductive part of C03 (filled in below): move_qnidx and label bookkeeping."""
+"""Deductive part of C03/C06: move_qnidx preserves the QN-valid representation invariant for all sizes (pyvc/z3)."""
+from contracts import mp as M
+from vk.pyvc.run import verify
 
 
 def prove(run):
-    pass
+    verify(run, M.REL, M.move_qnidx, fingerprint=M.FINGERPRINT_MOVE)
+    run.trusted += ["labels modelled with one integer component (the code acts componentwise on qn vectors)",
+                    "`site_num` (property len(self._mp)) modelled as a field of the receiver"]
